@@ -40,6 +40,7 @@ import (
 	"unicode/utf8"
 
 	"harness/internal/lp"
+	"harness/internal/track"
 
 	"github.com/lesismal/nbio/logging"
 	"github.com/lesismal/nbio/nbhttp"
@@ -75,6 +76,9 @@ type fakeConn struct{ e *endpoint }
 
 func (c *fakeConn) Read(b []byte) (int, error) { return 0, nil }
 func (c *fakeConn) Write(b []byte) (int, error) {
+	if tracker != nil {
+		tracker.CheckSlice(b, "the slice handed to Conn.Write")
+	}
 	if c.e.closed {
 		return 0, net.ErrClosed
 	}
@@ -130,7 +134,11 @@ type wsCfg struct {
 }
 
 func newEndpoint(g wsCfg) *endpoint {
-	engine := nbhttp.NewEngine(nbhttp.Config{ReadLimit: g.readLimit, MaxWebsocketFramePayloadSize: g.mf})
+	conf := nbhttp.Config{ReadLimit: g.readLimit, MaxWebsocketFramePayloadSize: g.mf}
+	if tracker != nil {
+		conf.BodyAllocator = tracker
+	}
+	engine := nbhttp.NewEngine(conf)
 	if g.readLimit == 0 {
 		engine.ReadLimit = 0
 	}
@@ -306,6 +314,19 @@ func exec(e *lp.Exec) {
 	var rt *rtCase
 	mode := ""
 	finish := func() {
+		had := rc != nil || rt != nil
+		defer func() {
+			if tracker != nil {
+				tracker.Audit()
+				for _, v := range tracker.Drain() {
+					e.Oracle(v.Oracle, "%s", v.Detail)
+				}
+				if live := tracker.Live(); len(live) > 0 && had {
+					e.Count("c11", "cases-with-live-buffers-after-close")
+				}
+				tracker.Reset()
+			}
+		}()
 		if rc != nil {
 			e.Key(rc.key.String(), rc.nt)
 			rc.e.ws.CloseAndClean(nil)
@@ -348,6 +369,15 @@ func exec(e *lp.Exec) {
 			e.Count("cases", "mask")
 			e.P("> %s", line)
 			e.P("ok")
+		case f[0] == "C" && len(f) > 1 && f[1] == "utf8":
+			finish()
+			mode = "utf8"
+			e.Count("cases", "utf8")
+			e.P("> %s", line)
+			e.P("ok")
+		case f[0] == "U" && mode == "utf8" && len(f) >= 2:
+			e.P("> %s", line)
+			e.P("R %d", b2i(utf8.Valid(parseSpec(f[1]))))
 		case f[0] == "M" && mode == "mask" && len(f) >= 3:
 			key := lp.Unhex(f[1])
 			data := parseSpec(f[2])
@@ -806,7 +836,22 @@ func lenClass(n int) int {
 	return 3
 }
 
+// tracker: with `exec -track` every endpoint takes its buffers from the tracking allocator of harness/internal/track
+// (C11: double free, use after free, foreign free; oracles c11-*); without the flag the production pool is used.
+var tracker *track.Tracker
+
+// genSeed: the -seed argument of `gen` (seed*1000 + shard index; used to split exhaustive sweeps over the shards)
+var genSeed int64 = 1
+
 func main() {
+	for i, a := range os.Args {
+		if a == "-track" {
+			tracker = track.New().Install()
+		}
+		if a == "-seed" && i+1 < len(os.Args) {
+			genSeed, _ = strconv.ParseInt(os.Args[i+1], 10, 64)
+		}
+	}
 	if len(os.Args) > 1 && os.Args[1] == "facts" {
 		facts()
 		return
